@@ -433,3 +433,92 @@ def rule_R3e(ctx, rep, config="c-lib"):
                                                   "(gcc -O2 reads the value it had at the setjmp call, so the cleanup it guards is skipped or done twice)" % var,
                                       where=ld.where(), witness=[st_after[0].where(), ld.where()])
     rep.floor("R3e", "locals modified after setjmp and read in a handler", n, 3)
+
+
+def rule_R3g(ctx, rep, config="c-lib"):
+    rep.rule("R3g", "a function whose error handler releases a group of objects only under a flag (`if (x_init_p) x_fin ()') sets that flag right after the call that "
+                    "creates the objects: between the creating call and the assignment of the flag there is no call that may raise an error -- an error raised there "
+                    "(an invalid token code while the tokens are read) finds the flag unset and the objects are never released")
+    from .r14 import path_exists
+    from .r5 import _controlling_conditions
+    p = ctx.prog(config)
+    m = p.m
+    rel_memo, cre_memo = {}, {}
+
+    def released(fn):
+        if fn in rel_memo:
+            return rel_memo[fn]
+        out = set()
+        for g_ in [fn] + sorted(p.reach(fn)):
+            g = m.functions.get(g_)
+            if g is None or g.decl:
+                continue
+            for c in g.calls():
+                if c.callee in ("yaep_free", "free") and c.args:
+                    lp = loaded_from(g, c.args[-1])
+                    if lp is not None and lp.root[0] == "g":
+                        out.add(lp.root[1])
+        rel_memo[fn] = out
+        return out
+
+    def created(fn):
+        if fn in cre_memo:
+            return cre_memo[fn]
+        out = set()
+        for g_ in [fn] + sorted(p.reach(fn)):
+            g = m.functions.get(g_)
+            if g is None or g.decl:
+                continue
+            for s_ in g.all_insts():
+                if s_.op != "store":
+                    continue
+                v = g.inst(strip_casts(g, s_.ops[0]))
+                if v is not None and v.is_call() and v.callee in ALLOC_FUNS:
+                    a = resolve_addr(g, s_.ops[1])
+                    if a.root[0] == "g":
+                        out.add(a.root[1])
+        cre_memo[fn] = out
+        return out
+    n = 0
+    for f in m.defined():
+        info = armed_info(p, f)
+        if not info:
+            continue
+        for (sj, h, nrm) in info:
+            guarded = []
+            for c in f.calls():
+                if not in_region(f, h, c) or not c.callee:
+                    continue
+                for (cc, pol) in _controlling_conditions(f, c.block.name):
+                    lp = loaded_from(f, cc.ops[0])
+                    if lp is not None and lp.root[0] == "alloca" and const_int(cc.ops[1]) == 0 and (cc.d["pred"] == "ne") == pol and in_region(f, h, cc):
+                        guarded.append((lp.root, c))
+            for (flag, R) in guarded:
+                rel = released(R.callee)
+                if not rel:
+                    continue
+                creators = [c for c in f.calls() if in_region(f, nrm, c) and c.callee and created(c.callee) & rel]
+                if not creators:
+                    continue
+                C = creators[0]
+                for c in creators:
+                    if f.inst_dominates(c, C):
+                        C = c
+                sets = [s_ for s_ in f.all_insts() if s_.op == "store" and resolve_addr(f, s_.ops[1]).root == flag and const_int(s_.ops[0]) not in (None, 0)
+                        and in_region(f, nrm, s_) and f.inst_dominates(C, s_)]
+                n += 1
+                rep.cover(p, [f.name])
+                key = "%s/flag-of-%s-set-after-%s" % (f.name, R.callee, C.callee)
+                if not sets:
+                    rep.violation("R3g", key, "%s creates what the error handler releases through %s under a flag, and the flag is never set after it" % (C.callee, R.callee),
+                                  where=C.where(), witness=[C.where(), R.where()])
+                    continue
+                late = [x for x in f.calls() if x is not C and in_region(f, nrm, x) and p.call_may_throw(f, x) and path_exists(f, C, x, sets)]
+                if late:
+                    rep.violation("R3g", key, "between %s, which creates the objects that the error handler releases through %s, and the assignment of the guarding flag "
+                                  "the call of %s may raise an error: the handler then skips %s and the objects stay allocated (the library holds memory after "
+                                  "everything was freed)" % (C.callee, R.callee, late[0].callee or "a function", R.callee), where=late[0].where(),
+                                  witness=[C.where(), late[0].where(), sets[0].where()])
+                else:
+                    rep.ok("R3g", key, sample={"created_at": C.where(), "flag_set_at": sets[0].where(), "released_in_handler_at": R.where()})
+    rep.floor("R3g", "flag-guarded releases in error handlers", n, 2)
